@@ -67,6 +67,8 @@ common_ops = [T("hash", idx), T("valid", idx), T("valid", idx), T("update", idx)
 file_ops = st.one_of(common_ops + [
     T("rwrite", idx, C, st.sampled_from(["w", "a", "wb", "ab"])),
     T("ropen", idx, C, st.sampled_from([1, 2])),
+    T("rupdate", idx, C, st.sampled_from(["r+", "rb+", "r+b", "w+", "a+", "wb+", "ab+"])),
+    T("rupdate", idx, C, st.sampled_from(["r+", "rb+", "r+b"])),
     T("rcopy", idx, st.booleans()),
     T("stage", idx), T("unstage", idx), T("stagenew", idx),
     T("rremove", idx), T("rtouch", idx),
@@ -307,6 +309,23 @@ class World:
         had = self.recorded(x) is not None
         data = fsx.enc(content) if "b" in mode else content
         ok, _ = self.guard("File.write", None, lambda: x.write(data, mode=mode))
+        if ok:
+            self.expect_fresh(i, "rwrite", had)
+
+    def op_rupdate(self, i, content, mode):
+        """Write through a read/update (or write/update) stream obtained from File.open."""
+        x = self.objs[i]
+        if mode.startswith("r") and not os.path.exists(self.arg(i)):
+            return          # 'r+' needs an existing file
+        had = self.recorded(x) is not None
+
+        def go():
+            f = x.open(mode)
+            f.seek(0, 2)
+            f.write(fsx.enc(content + "u") if "b" in mode else content + "u")
+            f.close()
+
+        ok, _ = self.guard("File.open(update)/close", None, go)
         if ok:
             self.expect_fresh(i, "rwrite", had)
 
